@@ -3,9 +3,11 @@ package scen
 import (
 	"bytes"
 	"context"
+	"errors"
 	"fmt"
 	"log/slog"
 	"net"
+	"runtime"
 	"runtime/debug"
 	"sort"
 	"strings"
@@ -289,7 +291,12 @@ const (
 	fkWakePacket fkWake = iota
 	fkWakeUnblocked
 	fkWakeStopped
+	fkWakeError
 )
+
+// errFakeTransient is what a poll returns when the scenario makes the source fail once (EINTR-like:
+// neither "unblocked" nor "stopped").
+var errFakeTransient = errors.New("fake source: transient poll error")
 
 type fkRingPkt struct {
 	ip   []byte
@@ -326,14 +333,15 @@ type fkSeam struct {
 // the bubble is durably blocked (after synctest.Wait) or by the single goroutine
 // the scheduler just released; mu only documents that.
 type fakeSource struct {
-	mu      sync.Mutex
-	ring    []fkRingPkt
-	pending bool
-	closed  bool
-	auto    bool
-	parked  chan fkWake
-	seams   []*fkSeam
-	last    []byte
+	parkedBuffering bool // the parked poll was issued by Capture.bufferPackets
+	mu              sync.Mutex
+	ring            []fkRingPkt
+	pending         bool
+	closed          bool
+	auto            bool
+	parked          chan fkWake
+	seams           []*fkSeam
+	last            []byte
 
 	popped, poppedFlow, nextCalls, unblockCalls, statsCalls, unblockedSeen int
 	recvSinceStats                                                         uint64
@@ -376,6 +384,13 @@ func (f *fakeSource) NextIPPacketZeroCopy() (slimcap.IPLayer, slimcap.PacketType
 	}
 	ch := make(chan fkWake, 1)
 	f.parked = ch
+	// who polls: the capture's normal loop or bufferPackets (the code keeps no flag for it)
+	f.parkedBuffering = false
+	if pc, _, _, ok := runtime.Caller(1); ok {
+		if fn := runtime.FuncForPC(pc); fn != nil {
+			f.parkedBuffering = strings.HasSuffix(fn.Name(), ".bufferPackets")
+		}
+	}
 	f.mu.Unlock()
 	w := <-ch
 	f.mu.Lock()
@@ -386,8 +401,20 @@ func (f *fakeSource) NextIPPacketZeroCopy() (slimcap.IPLayer, slimcap.PacketType
 	case fkWakeUnblocked:
 		f.unblockedSeen++
 		return nil, slimcap.PacketUnknown, 0, slimcap.ErrCaptureUnblocked
+	case fkWakeError:
+		return nil, slimcap.PacketUnknown, 0, errFakeTransient
 	}
 	return nil, slimcap.PacketUnknown, 0, slimcap.ErrCaptureStopped
+}
+
+// Buffering reports whether the parked poll was issued from inside a pause (bufferPackets).
+func (f *fakeSource) Buffering() bool { return f.parked != nil && f.parkedBuffering }
+
+// FailOnce lets the parked poll return a transient error.
+func (f *fakeSource) FailOnce() {
+	f.mu.Lock()
+	defer f.mu.Unlock()
+	f.wake(fkWakeError)
 }
 
 func (f *fakeSource) wake(w fkWake) {
